@@ -84,6 +84,10 @@ def stored_names(stmts):
                 out.append(n.id)
             elif isinstance(n, ast.Subscript) and isinstance(n.ctx, ast.Store) and isinstance(n.value, ast.Name):
                 out.append(n.value.id)
+            elif isinstance(n, ast.Call) and isinstance(n.func, ast.Attribute) and n.func.attr == "append" and isinstance(n.func.value, ast.Name):
+                # `lst.append(v)` mutates `lst` (translated as `let lst := lst.push v`): it is a store, so the list is
+                # loop-carried; without this a list appended to inside a loop came back unchanged after the loop
+                out.append(n.func.value.id)
             elif isinstance(n, ast.Call) and isinstance(n.func, ast.Name) and n.func.id in MUTATING:
                 callee = MUTATING[n.func.id]
                 for prm, arg in zip(callee.ptypes, n.args):
